@@ -1,11 +1,11 @@
 #!/bin/bash
-# tools/mkmut.sh <ID>  -> creates /tmp/mut/<ID> worktree (fresh from /repo HEAD) and /tmp/mut/prompt_<ID>.txt
+# tools/mkmut.sh <ID>  -> creates /root/mutwork/<ID> (a fresh clone of /repo HEAD) and /root/mutwork/prompt_<ID>.txt
 ID=$1
-[ -d /tmp/mut/$ID ] && git -C /repo worktree remove --force /tmp/mut/$ID
-git -C /repo worktree add -q --detach /tmp/mut/$ID HEAD
+rm -rf /root/mutwork/$ID
+git clone -q /repo /root/mutwork/$ID
 python3 - <<PY
-t=open('/tmp/mut/template.txt').read()
-p=open('/tmp/mut/prop_$ID.txt').read()
-open('/tmp/mut/prompt_$ID.txt','w').write(t.replace('__WT__','/tmp/mut/$ID').replace('__PROP__',p).replace('__ID__','$ID'))
+t=open('/root/mutwork/template.txt').read()
+p=open('/root/mutwork/prop_$ID.txt').read()
+open('/root/mutwork/prompt_$ID.txt','w').write(t.replace('__WT__','/root/mutwork/$ID').replace('__PROP__',p).replace('__ID__','$ID'))
 PY
-echo "/tmp/mut/prompt_$ID.txt"
+echo "/root/mutwork/prompt_$ID.txt"
